@@ -91,6 +91,39 @@ Definition reduce_k (u : cpcu) (new_lgk : N) : outcome cpcu :=
       Ok (mkU new_lgk (UMat m')))
   end.
 
+(* the BitMatrix arm of update: cases B, C, D *)
+Definition or_sketch_into_matrix (m : list N) (lgk : N) (sk : cpc) : outcome (list N) :=
+  let flavor := cpc_flavor sk in
+  if flavor =? SPARSE then                                                        (* case B *)
+    match c_table sk with
+    | None => Stuck
+    | Some tab => Ok (or_table_into_matrix m lgk tab)
+    end
+  else if (flavor =? HYBRID) || (flavor =? PINNED) then                            (* case C *)
+    obind (or_window_into_matrix m lgk (c_win sk) (c_off sk) (c_lgk sk)) (fun m1 =>
+    match c_table sk with
+    | None => Stuck
+    | Some tab => Ok (or_table_into_matrix m1 lgk tab)
+    end)
+  else if negb (flavor =? SLIDING) then Stuck                                      (* case D *)
+  else obind (build_bit_matrix sk) (fun src => or_matrix_into_matrix m lgk src (c_lgk sk)).
+
+(* the Accumulator arm of update: case A *)
+Definition walk_sketch_into_accumulator (old : cpc) (lgk : N) (sk : cpc) : outcome cpcu :=
+  let flavor := cpc_flavor sk in
+  if flavor =? SPARSE then
+    let old_flavor := cpc_flavor old in
+    if negb ((old_flavor =? SPARSE) || (old_flavor =? EMPTY)) then Stuck          (* unreachable! *)
+    else if (old_flavor =? EMPTY) && (lgk =? c_lgk sk) then Ok (mkU lgk (UAcc sk)) (* *old_sketch = sketch.clone() *)
+    else
+      match c_table sk with
+      | None => Stuck
+      | Some tab =>
+          obind (walk_table_updating_sketch old tab) (fun old' =>
+          if SPARSE <? cpc_flavor old' then to_matrix_state lgk old' else Ok (mkU lgk (UAcc old')))
+      end
+  else Stuck.                                                                     (* unreachable! *)
+
 (* update *)
 Definition union_update (u : cpcu) (sk : cpc) : outcome cpcu :=
   let flavor := cpc_flavor sk in
@@ -102,37 +135,9 @@ Definition union_update (u : cpcu) (sk : cpc) : outcome cpcu :=
               | UMat _ => Ok u1
               end
          else Ok u1) (fun u2 =>
-  let lgk := u_lgk u2 in
   match u_st u2 with
-  | UAcc old =>
-      if flavor =? SPARSE then
-        let old_flavor := cpc_flavor old in
-        if negb ((old_flavor =? SPARSE) || (old_flavor =? EMPTY)) then Stuck          (* unreachable! *)
-        else if (old_flavor =? EMPTY) && (lgk =? c_lgk sk) then Ok (mkU lgk (UAcc sk)) (* clone *)
-        else
-          match c_table sk with
-          | None => Stuck
-          | Some tab =>
-              obind (walk_table_updating_sketch old tab) (fun old' =>
-              if SPARSE <? cpc_flavor old' then to_matrix_state lgk old' else Ok (mkU lgk (UAcc old')))
-          end
-      else Stuck                                                                      (* unreachable! *)
-  | UMat m =>
-      if flavor =? SPARSE then                                                        (* case B *)
-        match c_table sk with
-        | None => Stuck
-        | Some tab => Ok (mkU lgk (UMat (or_table_into_matrix m lgk tab)))
-        end
-      else if (flavor =? HYBRID) || (flavor =? PINNED) then                            (* case C *)
-        obind (or_window_into_matrix m lgk (c_win sk) (c_off sk) (c_lgk sk)) (fun m1 =>
-        match c_table sk with
-        | None => Stuck
-        | Some tab => Ok (mkU lgk (UMat (or_table_into_matrix m1 lgk tab)))
-        end)
-      else if negb (flavor =? SLIDING) then Stuck                                      (* case D *)
-      else
-        obind (build_bit_matrix sk) (fun src =>
-        obind (or_matrix_into_matrix m lgk src (c_lgk sk)) (fun m' => Ok (mkU lgk (UMat m'))))
+  | UAcc old => walk_sketch_into_accumulator old (u_lgk u2) sk
+  | UMat m => obind (or_sketch_into_matrix m (u_lgk u2) sk) (fun m' => Ok (mkU (u_lgk u2) (UMat m')))
   end)).
 
 (* to_sketch *)
